@@ -273,6 +273,7 @@ func (c *Client) AddHeader(key, val string) *Client {
 
 // SetHeader sets a single header field and its value in the client.
 func (c *Client) SetHeader(key, val string) *Client {
+	c.header.Del(key)
 	c.header.Set(key, val)
 	return c
 }
